@@ -273,6 +273,7 @@ func parse(ctx context.Context, tree *parser.Thrift, mode meta.ParseServiceMode,
 		}
 	}
 
+	added := map[*parser.Function]bool{}
 	for _, svc := range svcs {
 		sopts := opts
 		// pass origin annotations
@@ -294,6 +295,11 @@ func parse(ctx context.Context, tree *parser.Thrift, mode meta.ParseServiceMode,
 			funcs = findFuncs(funcs, methods)
 		}
 		for _, p := range funcs {
+			// a function may be reached twice: through its own service and through a service extending it
+			if added[p.fn] {
+				continue
+			}
+			added[p.fn] = true
 			injectAnnotations((*[]*parser.Annotation)(&p.fn.Annotations), next)
 			if err := addFunction(ctx, p.fn, p.tree, sDsc, structsCache, sopts); err != nil {
 				return nil, err
@@ -356,6 +362,9 @@ func getAllFuncs(svc *parser.Service, tree *parser.Thrift, ret *[]funcTreePair) 
 			if sub != nil {
 				getAllFuncs(sub, subTree, &funcs)
 			}
+		} else if sub, _ := tree.GetService(svc.Extends); sub != nil && sub != svc {
+			// the base service is declared in the same file
+			getAllFuncs(sub, tree, &funcs)
 		}
 	}
 	*ret = funcs
